@@ -98,6 +98,7 @@ def t_exception_paths():
     ex = explore(f)
     assert ex.complete and len(ex.paths) == 2, (ex.status, ex.paths)
     assert sorted(p.kind for p in ex.paths) == ['exc', 'ret']
+    assert ex.exhaustive()  # the formatting stub must not narrow the path condition
 
 
 def t_real():
